@@ -5,6 +5,7 @@ from __future__ import annotations
 import itertools
 
 import numpy as np
+import pandas as pd
 
 from .. import gen
 
@@ -45,8 +46,17 @@ def build_key(fd, U, letters, assign, rng, order, spelling):
             if order == "id":
                 pick = sorted(pick)
             v = [gen.np_spelled(its[i], rng, 0.15) for i in pick]
-            if rng.random() < 0.3:
+            r_ = rng.random()
+            if r_ < 0.3:
                 v = tuple(v)
+            elif r_ < 0.5 and spelling not in ("bare", "tuple"):
+                # the same selection as another kind of sequence: numpy array, pandas Index / Series, range (consecutive integers)
+                plain = [its[i] for i in pick]
+                zoo = [np.array(plain), pd.Index(plain), pd.Series(plain, index=[f"row{j}" for j in range(len(plain))])]
+                if all(isinstance(q, int) and not isinstance(q, bool) for q in plain) and plain == list(range(plain[0], plain[0] + len(plain))):
+                    zoo.append(range(plain[0], plain[0] + len(plain)))
+                if all(isinstance(q, str) for q in plain) or all(isinstance(q, int) and not isinstance(q, bool) for q in plain) or all(isinstance(q, float) for q in plain):
+                    v = zoo[int(rng.integers(0, len(zoo)))]
         if spelling == "letter":
             kk = l if rng.random() < 0.85 else np.str_(l)
         elif spelling == "name":
@@ -72,6 +82,10 @@ def build_key(fd, U, letters, assign, rng, order, spelling):
     return key
 
 
+def is_listlike(v):
+    return isinstance(v, (list, tuple, np.ndarray, pd.Index, pd.Series, range))
+
+
 def region_dims(fd, U, letters, key_dict):
     """Dimension objects of the region addressed by a dict key (None if the key is not a dict)."""
     out = []
@@ -85,8 +99,8 @@ def region_dims(fd, U, letters, key_dict):
             out.append(U[l])
         elif isinstance(v, fd.Dimension):
             out.append(v)
-        elif isinstance(v, (list, tuple)):
-            out.append(("L", l, list(v)))
+        elif is_listlike(v):
+            out.append(("L", l, [q.item() if isinstance(q, np.generic) and not isinstance(q, np.str_) else (str(q) if isinstance(q, np.str_) else q) for q in v]))
         # single: dropped
     return out
 
@@ -449,7 +463,7 @@ def do_history(hub, U, all_letters, letters, rng, length):
                 rd = region_dims(fd, U, letters, key)
                 rshape = tuple(len(d.items) if not isinstance(d, tuple) else len(d[2]) for d in rd)
                 t[key] = gen.values_one("dyadic", rng, rshape)
-            elif isinstance(key, dict) and not any(isinstance(v, (list, tuple)) for v in key.values()):
+            elif isinstance(key, dict) and not any(is_listlike(v) for v in key.values()):
                 rd = region_dims(fd, U, letters, key)
                 dims = list(rd)
                 extra = [U[l] for l in all_letters if l not in [d.letter for d in dims] and l.upper() not in [d.letter for d in dims]]
